@@ -110,7 +110,23 @@ Definition ENV_SUFFIX_S : str := [34; 125; 125].
    to write out) prefix ++ the rank in decimal, zero-padded to a fixed width *)
 Inductive namer :=
 | NList (names : list str)
-| NPad (prefix : str) (width count : N).
+| NPad (prefix : str) (width count : N)
+(* integer keys beyond 64 bits / negative (u128, i128): the selector holds the
+   key as a JSON number; keys are listed ascending *)
+| NNum (nums : list Z).
+
+Definition print_Z (z : Z) : str :=
+  if (z <? 0)%Z then 45 :: print_dec (Z.to_N (- z)) else print_dec (Z.to_N z).
+
+Fixpoint Z_sorted (l : list Z) : bool :=
+  match l with
+  | [] => true
+  | x :: r => match r with [] => true | y :: _ => (x <? y)%Z && Z_sorted r end
+  end.
+
+(* is the key written into the selector as a JSON string (quoted)? *)
+Definition namer_quoted (nm : namer) : bool :=
+  match nm with NNum _ => false | _ => true end.
 
 Fixpoint pad_dec (width : nat) (n : N) (acc : str) : str :=
   match width with
@@ -128,6 +144,7 @@ Definition name_of (nm : namer) (k : N) : option str :=
   match nm with
   | NList names => nth_error names (N.to_nat k)
   | NPad p w c => if k <? c then Some (p ++ pad_dec (N.to_nat w) k []) else None
+  | NNum nums => option_map print_Z (nth_error nums (N.to_nat k))
   end.
 
 Definition rank_of (nm : namer) (s : str) : option N :=
@@ -140,17 +157,23 @@ Definition rank_of (nm : namer) (s : str) : option N :=
           if (N.of_nat (length ds) =? w) && forallb is_digit ds && (dec_value ds <? c)
           then Some (dec_value ds) else None
       end
+  | NNum nums => index_of s (map print_Z nums) 0
   end.
 
 Definition namer_count (nm : namer) : N :=
-  match nm with NList names => N.of_nat (length names) | NPad _ _ c => c end.
+  match nm with
+  | NList names => N.of_nat (length names)
+  | NPad _ _ c => c
+  | NNum nums => N.of_nat (length nums)
+  end.
 
 Definition env_ser_names (nmr : namer) (s : sel) : option (list N) :=
   let (o, k) := s in
   match name_of nmr k with
   | Some nm =>
       Some (ENV_PREFIX ++ (match o with Asc => W_ASC | Desc => W_DESC end)
-            ++ ENV_MID_S ++ nm ++ ENV_SUFFIX_S)
+            ++ (if namer_quoted nmr then ENV_MID_S ++ nm ++ ENV_SUFFIX_S
+                else ENV_MID ++ nm ++ ENV_SUFFIX))
   | None => None
   end.
 
@@ -175,10 +198,10 @@ Definition env_de_names (names : namer) (bs : list N) : option (pag_version * se
       match after_order with
       | None => None
       | Some (o, r2) =>
-          match strip_prefix ENV_MID_S r2 with
+          match strip_prefix (if namer_quoted names then ENV_MID_S else ENV_MID) r2 with
           | None => None
           | Some r3 =>
-              match strip_suffix ENV_SUFFIX_S r3 with
+              match strip_suffix (if namer_quoted names then ENV_SUFFIX_S else ENV_SUFFIX) r3 with
               | None => None
               | Some nm =>
                   match rank_of names nm with
@@ -204,6 +227,7 @@ Definition namer_wf (nm : namer) : bool :=
   match nm with
   | NList names => names_sorted names && forallb name_plain names
   | NPad p w c => name_plain p && (w <=? 20) && (c <=? 10 ^ w)
+  | NNum nums => Z_sorted nums
   end.
 
 (* ---------- observations ---------- *)
